@@ -16,10 +16,21 @@ _URI_TYPE = "uri"
 _XML_LANG_FIELD = "xml:lang"
 
 
+_LITERAL_TYPES = ("literal", "typed-literal")
+_DATATYPE_FIELD = "datatype"
+
+
 def _add_lang_if_needed(result_dict):
+    """
+    For literals, it returns an N-Triples-like token: quoted value plus language tag or datatype.
+    """
     result = result_dict[_VALUE_KEY]
-    if _XML_LANG_FIELD in result_dict:
-        result += '"' + result + '"@' + result_dict[_XML_LANG_FIELD]
+    if result_dict.get(_TYPE_KEY) in _LITERAL_TYPES:
+        result = '"' + result + '"'
+        if _XML_LANG_FIELD in result_dict:
+            result += '@' + result_dict[_XML_LANG_FIELD]
+        elif _DATATYPE_FIELD in result_dict:
+            result += '^^<' + result_dict[_DATATYPE_FIELD] + '>'
     return result
 
 
